@@ -22,6 +22,10 @@ def children_pool():
 
 FAILING = [
     (("asg", assign(("var", "cf"), "=", ("math", mvar("nope")))), None, 0),
+    # assignments the data context refuses: a name injected BY VALUE, a field of a struct injected by value, a missing field
+    (("asg", assign(("var", "lim"), "=", ("math", mint(20)))), None, 0),
+    (("asg", assign(("var", "hv.I64"), "=", ("math", mint(5)))), None, 0),
+    (("asg", assign(("var", "h.Nope"), "=", ("math", mint(5)))), None, 0),
     (("call", call("func", "Boom", [])), None, 1),
     (("call", call("func", "Nope", [])), None, 1),
     (("call", call("method", "h.Boom", [])), None, 2),
@@ -35,7 +39,8 @@ def fresh(ch):
 
 
 def inject():
-    return [inj_func("Mark"), inj_func("IdI64"), inj_func("Boom"), inj_func("Hold"), inj_struct("h"), inj_map("mp", "s", "i64", [])]
+    return [inj_func("Mark"), inj_func("IdI64"), inj_func("Boom"), inj_func("Hold"), inj_struct("h"), inj_map("mp", "s", "i64", []),
+            inj_val("lim", tv_int("i64", 10)), dict(inj_struct("h"), name="hv", kind="structv")]
 
 
 def make_cases(rng, tier):
@@ -108,7 +113,7 @@ def canonical_calls(c, o):
 
 
 RULE = ("conc blocks of 0-6 children drawn from 9 non-failing shapes (assignments to a local, a struct field, a map entry, an assignment whose right-hand side calls a function; function, method and three-level calls) plus at most one failing child "
-        "(undefined name, panicking function or method, missing function or method), shuffled; each block twice: plain, and with an extra child Hold(\"gate\") that the adversary blocks until nothing else happens for a quiet period; "
+        "(undefined name, assignment to a name or struct injected by value or to a missing field, panicking function or method, missing function or method), shuffled; each block twice: plain, and with an extra child Hold(\"gate\") that the adversary blocks until nothing else happens for a quiet period; "
         "`Mark(1)` precedes and `Mark(99)` follows the block, the rule returns values written by the children; checked by the driver on the global call order: every child's call exactly once, all of them (and the held child's release) before Mark(99), "
         "Mark(99) absent when the block fails; checked inside Coq (after rewriting the block's calls into spawn order): outcome class, cited positions, returned value, host objects afterwards; "
         "distinct non-trivial = blocks with at least two children")
